@@ -214,10 +214,16 @@ def main(argv=None):
         exit_code = R.EXIT_FAULT
     wall = time.time() - t0
     level = getattr(pm, "LEVEL", "proof")
-    all_discharged = n_obl > 0 and n_dis == n_obl and not undecided and not faults
+    # obligations that are REFUTED and matched to a listed known finding (same function/site and clause, witness still
+    # failing) are not part of what this run claims as proved: they are reported separately, never as discharged
+    n_known_refuted = sum(1 for h in known_hits if not h[0].get("standalone"))
+    n_claimed = n_obl - n_known_refuted
+    all_discharged = n_claimed > 0 and n_dis == n_claimed and not undecided and not faults
     coverage = {
-        "obligations": n_obl,
+        "obligations": n_claimed,
         "discharged": n_dis,
+        "obligations_generated": n_obl,
+        "refuted_obligations_listed_as_known_findings": n_known_refuted,
         "checker_cmd": f"./check {pid} --tier {tier}",
         "trusted_base": list(getattr(pm, "TRUSTED", [])) + sorted("model:" + m for m in models_used),
         "functions_under_contract": funcs_info,
